@@ -873,7 +873,87 @@ def check_manual(case) -> Verdict:
 decode_doc = gen.decode_doc  # (bytes -> case) of the coverage-guided campaign
 
 
+# ---- the report of a failing act phase quotes the whole act phase ------------------------------------------------------------
+# "repeated declarations of a phase merged in file order" + "before any header, the act phase" + "every error report
+# carries ... the text of the source lines it actually came from": when the act phase fails (it cannot be parsed /
+# validated / executed) the report quotes the source of the act phase - the lines of ALL its blocks, in file order.
+_ACT_LAYOUTS = {
+    'one-block': ['[act]', 'L1', 'L2'],
+    'before-header+block': ['L1', '[setup]', 'dir d', '[act]', 'L2'],
+    'two-blocks': ['[act]', 'L1', '[assert]', 'exit-code == 0', '[act]', 'L2'],
+    'three-blocks': ['L1', '[setup]', 'dir d', '[act]', 'L2', '[cleanup]', 'dir e', '[act]', 'L3'],
+    # (inside [act] `including` is an ordinary source line; a file included from another phase may have an act part)
+    'block+included-block': ['[act]', 'L1', '[setup]', 'including more-act.xly', 'dir d', '[act]', 'L3'],
+    'blocks-with-comment-and-blank': ['[act]', 'L1', '', '[before-assert]', 'dir d', '[act]', '# comment', 'L2'],
+    'second-block-last-without-newline': ['[act]', 'L1', '[setup]', 'dir d', '[act]', 'L2', 'L3'],
+}
+_ACT_FAILURES = {
+    # the default actor takes one program line: a second one is a syntax error of the act phase
+    'syntax/command-line': ([], 'SYNTAX_ERROR', 'echo-program line-%d'),
+    # the interpreter cannot be started: the act phase fails when it is executed
+    'hard-error/source': (['actor = source % no-such-interpreter-c07'], 'HARD_ERROR', 'source line %d'),
+    # the file to interpret does not exist: the act phase fails validation
+    'validation/file': (['actor = file % sh'], 'VALIDATION_ERROR', None),
+}
+
+
+def enum_act_blocks(tier):
+    for layout in sorted(_ACT_LAYOUTS):
+        for failure in sorted(_ACT_FAILURES):
+            yield {'layout': layout, 'failure': failure}
+
+
+def check_act_blocks(case) -> Verdict:
+    conf, ident, line_form = _ACT_FAILURES[case['failure']]
+    lines = []
+    n = 0
+    for l in _ACT_LAYOUTS[case['layout']]:
+        if re.fullmatch(r'L\d', l):
+            n += 1
+            if line_form is None:
+                # file actor: the first line names the (missing) file, the others can only be comments
+                l = 'no-such-file-c07.sh arg' if n == 1 else '# act comment %d' % n
+            else:
+                l = line_form % n
+        lines.append(l)
+    # ([conf] comes last in the file: lines before any header are act phase lines)
+    files = {ROOT: '\n'.join(lines + (['[conf]'] + conf if conf else [])) +
+             ('' if case['layout'].endswith('without-newline') else '\n')}
+    if case['layout'] == 'block+included-block':
+        files['more-act.xly'] = '[act]\n' + (line_form % 9 if line_form else '# act comment 9') + '\n'
+    r = ref.read_document(files, ROOT)
+    if r.error is not None:
+        raise AssertionError('act layout is not a document: %r' % (r.error,))
+    want = [x['text'] for x in r.phases['act']]
+    labels = ['act-layout:' + case['layout'], 'act-failure:' + case['failure'], 'act-lines:%d' % len(want)]
+    with driver.Workspace() as ws:
+        _materialise(ws, {'files': files})
+        res = driver.run_inproc(ws, [ROOT])
+    detail = {'files': files, 'exit': res.exit_code, 'stdout': res.out[:200], 'stderr': res.err[:1200],
+              'act_phase_lines': want}
+    if res.exception or res.timed_out:
+        return fail('act-report/escaped-exception-or-timeout', dict(detail, exception=res.exception), labels=labels,
+                    nontrivial=True)
+    if res.out != ident + '\n':
+        return fail('act-report/identifier/%s' % ident, detail, labels=labels, nontrivial=True)
+    m = re.search(r'^Actor "[^"]+"\n\n((?:  .*\n|\n)*?)\n\n', res.err, re.M)
+    if not res.err.startswith('In [act]\n') or m is None:
+        return fail('act-report/not-a-report-of-the-act-phase', detail, labels=labels, nontrivial=True)
+    quoted = [q[2:] if q.startswith('  ') else q for q in m.group(1).split('\n')]
+    while quoted and quoted[-1].strip() == '':
+        quoted.pop()
+    exp = [w.rstrip() for w in want]
+    while exp and exp[-1] == '':
+        exp.pop()
+    if [q.rstrip() for q in quoted] != exp:
+        return fail('act-report/quoted-source-is-not-the-act-phase', dict(detail, quoted=quoted), labels=labels,
+                    nontrivial=True)
+    return Verdict(True, nontrivial=len(want) > 1, labels=labels, key='%s|%s' % (case['layout'], case['failure']))
+
+
 SUBS = [
+    Sub('act_blocks_report', check_act_blocks, enumerate=enum_act_blocks, exhaustive=True,
+        shards={'quick': 1, 'thorough': 1}),
     Sub('manual_agrees', check_manual, enumerate=lambda tier: [{'what': 'instructions'}], exhaustive=True,
         shards={'quick': 1, 'thorough': 1}),
     Sub('api_small_exhaustive', check_api, enumerate=gen.enumerate_small, exhaustive=True),
